@@ -10,6 +10,7 @@ from engine.routeb import gotocc_cpp, CHECKS, STD, mirrored_string_piece
 from engine.selftest import subst
 
 ID = "C15"
+USES_CPP = True   # adds the front-end assumption canaries (engine/frontend.py) to every run of this check
 
 MANIFEST = {
     "level_claimed": {
